@@ -816,6 +816,9 @@ func (c *checker) checkSite(tc *tcase, rnd *rand.Rand, selftest bool) {
 		if len(e.Hdr["X-A"]) > 1 {
 			c.stat("header_added_value")
 		}
+		if e.Kind == "error" && e.Via == "wrapper" {
+			c.stat("error_page_through_the_wrapper")
+		}
 		if e.Via == "outside" && len(e.Hdr["X-I"]) > 0 && len(e.Free) > 0 {
 			c.stat("fallback_keeps_deleted_name")
 		}
@@ -1003,7 +1006,7 @@ func TestCx12Rules(t *testing.T) {
 	if !selftest && res.Infra == "" {
 		for _, k := range []string{"sites_refused", "sites_served", "kind_file", "kind_inner", "kind_status", "kind_error", "kind_listing", "kind_expvar",
 			"kind_pprof", "kind_redirect", "via_wrapper", "via_outside", "status_rule_answers", "status_rule_not_the_first", "ext_rewrite",
-			"ext_rewrite_later_extension", "index_later_page", "mime_sets_type", "header_value_unjudged", "rid_client", "rid_fresh", "header_added_value"} {
+			"ext_rewrite_later_extension", "index_later_page", "mime_sets_type", "header_value_unjudged", "rid_client", "rid_fresh", "header_added_value", "error_page_through_the_wrapper"} {
 			if c.stats[k] == 0 {
 				res.Infra = "vacuous replay: no case with " + k
 			}
